@@ -21,11 +21,14 @@
        read false on both sides.
      * ev_ext ev: the event reads an assignment only through lookupb (association lists with shadowing are a
        representation detail), e.g. `lookupb a` for an atom a or any boolean combination of such.
-   The theorem holds for every clause order satisfying wf_netb; the harness checks wf_netb on a topological
-   permutation of formula.enum_clauses() (the sum over all assignments does not depend on the numbering of the
-   choice nodes, which is checked numerically there, not proved here). *)
+   (6) Order independence (C31_marginals_any_order, proofs in ProofsGlobalPerm.v): bn_marginal does not depend on
+   the clause order, i.e. on the numbering of the choice nodes (bn_marginal_perm, no well-formedness needed), so the
+   network of the clause list cs in ANY order -- in particular the order of formula.enum_clauses() -- has the
+   world-semantics marginals as soon as SOME permutation cs' of it satisfies wf_netb.  The harness evaluates
+   wf_netb on a topological permutation cs' of formula.enum_clauses() for every real exported network. *)
 From Coq Require Import QArith NArith List Bool.
-From PL.C31 Require Import ModelBN ModelBNwf ProofsBN ProofsGlobal.
+From Coq Require Import Permutation.
+From PL.C31 Require Import ModelBN ModelBNwf ProofsBN ProofsGlobal ProofsGlobalPerm.
 Import ListNotations.
 Open Scope Q_scope.
 
@@ -77,6 +80,17 @@ Theorem C31_joint_normalised : forall atoms cs,
 Proof. exact joint_normalised. Qed.
 Print Assumptions C31_joint_normalised.
 
+(* order independence: the clause list of the network may be in ANY order (the order only numbers the choice
+   nodes); it suffices that some permutation of it is well formed.  The right-hand side is ProbLog's world
+   semantics read along that topological order. *)
+Theorem C31_marginals_any_order : forall atoms cs cs' ev,
+  Permutation cs cs' ->
+  wf_netb atoms cs' = true ->
+  ev_ext ev ->
+  bn_marginal atoms cs ev == mass (run stepW cs' []) ev.
+Proof. exact marginals_any_order. Qed.
+Print Assumptions C31_marginals_any_order.
+
 (* non-vacuity: 0.3::a. 0.5::b. 0.2::h1; 0.3::h2 :- a, \+b. 0.4::h1 :- b. d :- h1, \+h2.
    atoms a=1 b=2 h1=3 h2=4 d=5 *)
 Definition ex_prog : list clause :=
@@ -105,3 +119,12 @@ Example C31_ex_not_wf : wf_netb [1%N; 2%N; 3%N; 4%N; 5%N] (rev ex_prog) = false.
 Proof. vm_compute. reflexivity. Qed.
 Example C31_ex_ev_ext : forall a, ev_ext (lookupb a).
 Proof. intros a r1 r2 H. apply H. Qed.
+(* non-vacuity of C31_marginals_any_order: the reversed example program is NOT well formed as it stands
+   (C31_ex_not_wf) but is a permutation of a well-formed list, so its sum-product marginals are the world semantics *)
+Example C31_ex_perm : Permutation (rev ex_prog) ex_prog.
+Proof. apply Permutation_sym. apply Permutation_rev. Qed.
+Example C31_ex_any_order : forall a,
+  bn_marginal [1%N; 2%N; 3%N; 4%N; 5%N] (rev ex_prog) (lookupb a) == mass (run stepW ex_prog []) (lookupb a).
+Proof.
+  intro a. apply C31_marginals_any_order. exact C31_ex_perm. exact C31_ex_wf. exact (C31_ex_ev_ext a).
+Qed.
